@@ -315,12 +315,15 @@ pub const ELEM_NAMES: &[&str] = &[
     "Привет", "a1", "a_1", "_a", "b_attr", "r", "p", "x:p",
     // non-ASCII names with other byte alignments / widths
     "aпривет", "é", "naïve", "日本語", "a日本", "x:привет", "ÉCOLE", "école", "straße", "İi",
+    // names that vanish or shrink under case conversion
+    "_", "__", "_.", "_-_", "x:_", "_1", "A", "a_", "a__b",
 ];
 
 pub const ATTR_NAMES: &[&str] = &[
     "a", "b", "c", "id", "name", "type", "Type", "self", "xml:lang", "xmlns:h", "xmlns", "h:a", "x:a", "h:b", "Foo",
     "foo", "FOO", "a-b", "a_b", "a.b", "text", "text_attr", "b_attr", "foo_1", "привет", "value", "xmlns:x", "loop",
     "aпривет", "abcdeé", "é", "日本語", "a日本", "xmlnsé", "xmlns:é", "xml:é", "ÉCOLE", "école",
+    "_", "__", "_.", "x:_", "_1", "a__b",
 ];
 
 const TEXTS: &[&str] = &[
@@ -338,6 +341,9 @@ const DECLS: &[&str] = &[
     "version=\"1.0\" encoding=\"UTF-8\"",
     "version='1.0' encoding='utf-8' standalone='yes'",
     "version=\"1.1\" ",
+    "version=\"1.0\" encoding=\"ISO-8859-1\"",
+    "version=\"1.0\" encoding=\"US-ASCII\" standalone=\"no\"",
+    "version=\"1.0\" encoding=\"UTF8\"",
 ];
 const DOCTYPES: &[&str] = &[
     "r",
@@ -587,6 +593,10 @@ pub fn gen_prolog(rng: &mut Rng, cfg: &GenCfg, root: &str) -> (Vec<Misc>, Vec<Mi
     let mut pro = Vec::new();
     let mut epi = Vec::new();
     if rng.pct(cfg.p_prolog) {
+        if rng.pct(12) {
+            // UTF-8 byte order mark: legal at the very start; readers strip it or hand it over as leading text
+            pro.push(Misc::Ws("\u{FEFF}".to_string()));
+        }
         if rng.pct(70) {
             pro.push(Misc::Decl(rng.pick(DECLS).to_string()));
         }
